@@ -134,7 +134,66 @@ def check_frame(obj, f, frame, rows, viol, where, case=None):
     return "label"
 
 
+def run_twofeatures(case):
+    """two categorical features sharing their vocabulary, fitted together: `home` has rare categories (default group),
+    `work` has none.  A value unseen for `home` but known to `work` is valid data: every frame of 1 or 2 rows over the row
+    types must be accepted and labelled with fitted labels."""
+    from AutoCarver import BinaryCarver
+    from AutoCarver.discretizers import Discretizer, QualitativeDiscretizer
+
+    n = 24
+    X = pd.DataFrame(
+        {
+            "home": pd.Series(["A"] * 9 + ["B"] * 9 + ["C"] * 4 + ["r1", "r2"], dtype=object),
+            "work": pd.Series(["D", "A", "B"] * 8, dtype=object),
+            "q": pd.Series([float(i % 4) for i in range(n)], dtype=float),
+        }
+    )
+    y = pd.Series([0, 0, 0, 1, 0, 0, 1, 1, 0, 1, 1, 1] * 2)
+    cls = case["cls"]
+    if cls == "Discretizer":
+        obj = Discretizer(["q"], ["home", "work"], 0.1, copy=True)
+    elif cls == "QualitativeDiscretizer":
+        obj = QualitativeDiscretizer(["home", "work"], 0.1, copy=True)
+    else:
+        obj = BinaryCarver(sort_by="cramerv", min_freq=0.1, quantitative_features=["q"], qualitative_features=["home", "work"], max_n_mod=4, copy=True, output_dtype=case.get("output_dtype", "float"))
+    obj.fit(X, y)
+    res = {"violations": [], "sample": dict(case), "evaluations": 0}
+    viol = res["violations"]
+    feats = [f for f in ("home", "work") if f in obj.features]
+    rows = [(h, w) for h in ("A", "B", "D", "zz", "r1") for w in ("A", "B", "D")]
+    frames = [[r] for r in rows] + [[r1, r2] for r1 in rows for r2 in rows]
+    n_ev = 0
+    for rs in frames:
+        fr = pd.DataFrame({"home": pd.Series([r[0] for r in rs], dtype=object), "work": pd.Series([r[1] for r in rs], dtype=object), "q": pd.Series([1.0] * len(rs))})
+        n_ev += 1
+        try:
+            out = obj.transform(fr)
+        except AssertionError as exc:
+            viol.append({"kind": "spurious-assert-two-features", "what": f"{cls}: frame {rs} rejected although every value is acceptable: {str(exc)[:100]}"})
+            if len(viol) > 3:
+                break
+            continue
+        except Exception as exc:  # noqa
+            viol.append({"kind": f"other-exception-{type(exc).__name__}", "what": f"{cls}: frame {rs} raised {type(exc).__name__}: {str(exc)[:100]}"})
+            break
+        for f in feats:
+            labs = label_set(obj, f)
+            for o in out[f].tolist():
+                if not in_labels(o, labs, False):
+                    viol.append({"kind": "not-a-label", "what": f"{cls}: frame {rs}: output {o!r} of {f} is not in the fitted label set {labs!r}"})
+                    break
+        if len(viol) > 3:
+            break
+    res["evaluations"] = res["transitions"] = n_ev
+    res["outcome"] = f"two-features:{cls}"
+    res["nontrivial"] = f"two-features:{cls}:{case.get('output_dtype')}"
+    return res
+
+
 def run_case(case):
+    if case.get("twofeatures"):
+        return run_twofeatures(case)
     fit, obj = c04.fitted_object(case)
     res = {"violations": [], "sample": dict(case), "evaluations": 0}
     if obj is None:
@@ -168,6 +227,22 @@ def run_case(case):
             fr = make_frame(X, f, vals, quant)
             outcomes.add(check_frame(obj, f, fr, rows, viol, f"training frame with row {pos} replaced", case))
             n += 1
+    # the user declares, after fit, where future missing values go: the same frames again on the edited object
+    if case["type"] == "carver" and not viol and not case.get("kw"):
+        from . import c17
+
+        ev = next((e for e in c17.enabled(obj, X, case["kind"]) if e[1] == "NaN"), None)
+        if ev is not None:
+            try:
+                c17.apply_edit(obj, ev)
+            except Exception:  # noqa  (the edit itself is C17's business)
+                ev = None
+        if ev is not None:
+            A2 = row_alphabet(obj, f, case["kind"], X)
+            for rows in [[a] for a in A2] + [[a, b] for a in A2[:3] for b in A2]:
+                fr = make_frame(X, f, [v for _, v in rows], quant)
+                outcomes.add("edited:" + check_frame(obj, f, fr, rows, viol, f"after update_discretizer{tuple(ev)}: {len(rows)}-row frame", case))
+                n += 1
     res["evaluations"] = n
     res["transitions"] = n
     has_default = obj.str_default is not None and obj.values_orders[f].contains(obj.str_default)
@@ -227,6 +302,9 @@ def enumerate_cases(tier, seed):
                         continue
                     for mf in (0.1, 0.25):
                         cases.append({"type": "disc", "cls": cls, "kind": kind, "cells": [list(c) for c in cells], "nan": list(nan) if nan else None, "min_freq": mf, "target": "binary", "seed": seed, "companion": None, "json": False})
+    for cls in ("Discretizer", "QualitativeDiscretizer", "BinaryCarver"):
+        for od in ("float", "str") if cls == "BinaryCarver" else ("str",):
+            cases.append({"twofeatures": True, "cls": cls, "output_dtype": od, "type": "two", "kind": "CAT"})
     transitions += len(cases)
     return cases, transitions
 
